@@ -254,7 +254,7 @@ pub fn cases(tier: Tier) -> Vec<GCase> {
 
 pub fn main(tier: Tier, replay: Option<serde_json::Value>) -> i32 {
     let mut run = Run::new("C12", tier, "model_checking");
-    run.rule = "cases = (component, subgroup points incl. O / P,-P / P,P, bits, scalars incl. r_J-1, r_J, r_J+1, 2^252-1, out-of-range); honest assignment + bound-1 (bound-2 for the few-row gadgets; strided for mul_point and reported) deviations through the real generator decided by M1; predicate: satisfiable, and every satisfying assignment returns the native group result (own affine Edwards arithmetic); select_identity unsatisfiable for non-boolean bits; scalars >= 2^252 unsatisfiable".into();
+    run.rule = "cases = (component, subgroup points incl. O / P,-P / P,P, bits, scalars incl. r_J-1, r_J, r_J+1, 2^252-1, out-of-range); honest assignment + bound-1 (bound-2 for the few-row gadgets; strided for mul_point and reported) deviations through the real generator decided by M1; predicate: satisfiable, and every satisfying assignment returns the native group result (own affine Edwards arithmetic); select_identity unsatisfiable for non-boolean bits; scalars >= 2^252 unsatisfiable; also aliased operands, Composer::IDENTITY as an operand of every component, and a second application to the same witnesses".into();
     let cs = cases(tier);
     let cache = ConfirmCache::new(crate::setup::pp(1 << 12));
     if let Some(r) = replay {
